@@ -36,6 +36,9 @@ def generate(tier, seed):
             cases.append({"cid": f"mix-free-{i}-{j}", "family": "mixture-free", "kind": "solve", "spec": spec,
                           "plan": {"solver": cfg, "py_seed": seed + i}})
     cases.extend(extra_cases(tier, seed))
+    if tier != "quick":
+        # L7: the repository's own tests under the universal monitors
+        cases.append({"cid": "suite-replay", "family": "suite", "kind": "suite", "jobs": 8})
     return cases
 
 
